@@ -261,6 +261,7 @@ def HOp2.target : HOp2 → Option Nat
   | .newFrom o _ _ => some o
   | .appendLinesOf o _ => some o
   | .newWithHeader o _ _ => some o
+  | .clone o _ => some o
 
 theorem objAt_set_ne (objs : List TObj) (o i : Nat) (x : TObj) (h : i ≠ o) :
     objAt (objs.set o x) i = objAt objs i := by
@@ -293,6 +294,26 @@ theorem step2_frame (objs : List TObj) (op : HOp2) (i : Nat) (h : HOp2.target op
     have hne : i ≠ o := by intro e; exact h (by simp [HOp2.target, e])
     simp only [step2]
     exact objAt_set_ne _ _ _ _ hne
+  | clone o j =>
+    have hne : i ≠ o := by intro e; exact h (by simp [HOp2.target, e])
+    simp only [step2]
+    exact objAt_set_ne _ _ _ _ hne
+
+/-- a deep copy is an equal block, and a separate one: whatever is done to the copy afterwards (any step whose
+    target is the copy) leaves the original as it was -/
+theorem clone_equal (objs : List TObj) (o j : Nat) (ho : o < objs.length) :
+    objAt (step2 objs (.clone o j)).1 o = objAt objs j := by
+  simp [step2, objAt, List.getD_eq_getElem?_getD, ho]
+
+theorem clone_independent (objs : List TObj) (o j : Nat) (op : HOp2) (hne : j ≠ o)
+    (ht : HOp2.target op = some o) :
+    objAt (step2 (step2 objs (.clone o j)).1 op).1 j = objAt objs j := by
+  have h1 : HOp2.target op ≠ some j := by
+    rw [ht]; intro e; exact hne (Option.some.inj e).symm
+  have h2 : HOp2.target (.clone o j) ≠ some j := by
+    simp only [HOp2.target]; intro e; exact hne (Option.some.inj e).symm
+  rw [step2_frame _ op j h1]
+  exact step2_frame objs (.clone o j) j h2
 
 /-- appending a block is appending its current lines (its header is not taken over) -/
 theorem appendRef_lines (objs : List TObj) (o j : Nat) (ho : o < objs.length) :
